@@ -105,6 +105,7 @@ func runWorker(p *Program, sh *Shared, entry *ssa.Function, w int) {
 	defer func() {
 		sh.mu.Lock()
 		sh.Queries += int64(solver.Queries)
+		sh.EvalWitness += ex.evalWitness
 		sh.SatN += int64(solver.SatN)
 		sh.UnsatN += int64(solver.UnsatN)
 		sh.UnknownN += int64(solver.UnknownN)
